@@ -153,6 +153,19 @@ func oracleFor(op *Sexp, res string) []string {
 		if res != want {
 			bad("round trip differs beyond the documented normalisations: got %s want %s", res, want)
 		}
+	case "enc":
+		c, err := parseCtx(op)
+		if err != nil {
+			return nil
+		}
+		v, err := parseVal(op.List[4])
+		if err != nil || multiEntryMaps(v) || res == "err" {
+			return nil
+		}
+		want := "ok " + hx(cfgRef(c.cfg).top(c.td, v, c.tag))
+		if res != want {
+			bad("Marshal output differs from the documented format: got %s want %s", res, want)
+		}
 	case "dec":
 		if res != "err" && !strings.HasPrefix(res, "ok ") && res != "builderr" {
 			bad("decode outcome %q", res)
